@@ -492,6 +492,7 @@ class SourceHandler:
         self.states.state = CfdpState.IDLE
         if clear_packet_queue:
             self._pdus_to_be_sent.clear()
+            self.states._num_packets_ready = 0
         self._params.reset()
 
     def reset(self) -> None:
